@@ -109,7 +109,7 @@ func driverCtrlReplay(c *Ctx) {
 func collidingHeaders(stype byte, sid uint16, h func([]byte) uint32, framed bool) (a, b []byte, ok bool) {
 	seen := map[uint32][]byte{}
 	for n := uint32(1); n < 3000000; n++ {
-		x := n * 2654435761 // spread over all four system bytes ...
+		x := n * 2654435761        // spread over all four system bytes ...
 		y := n*40503 + uint32(sid) // ... and the session id (a CRC is a bijection on any four bytes alone)
 		hdr := []byte{byte(y >> 8), byte(y), 0, 0, 0, stype, byte(x >> 24), byte(x >> 16), byte(x >> 8), byte(x)}
 		in := hdr
